@@ -95,7 +95,11 @@ func Harness_C12_readMethods() {
 			sentBody = []byte("<html>")
 		}
 		if truncated {
-			sentBody = sentBody[:2]
+			// the connection drops two bytes into the body, or after what happens to be a complete
+			// JSON document (more was announced): either way the read failed
+			if vChoice("complete-document-arrived", 2) == 0 {
+				sentBody = sentBody[:2]
+			}
 			rsp := c12Response(req, status, nil)
 			rsp.Body = &c12BrokenBody{data: sentBody}
 			return rsp, nil
